@@ -1,6 +1,7 @@
 import Psa.Shipped
 import Psa.Standard
 import Psa.RegistryProofs
+import Psa.StdEval
 namespace PSA
 
 /-- tie obligation: every registered revision has a model function -/
@@ -15,23 +16,6 @@ theorem shipped_wf : WellFormed shipped where
   overrides := by decide
 
 theorem shipped_max : maxVersionOf shipped = .mm 1 32 := by decide
-
-/-- which revisions run, written the way a reader of the Standard would: by version thresholds -/
-def activeBaseline (V : Nat) : List RevId :=
-  [.appArmor0, .capsBaseline0, .hostNamespaces0, .hostPath0, .hostPorts0, .privileged0, .procMount0,
-   (if V < 31 then .seLinux0 else .seLinux31), (if V < 19 then .seccompB0 else .seccompB19),
-   (if V < 27 then .sysctls0 else if V < 29 then .sysctls27 else if V < 32 then .sysctls29 else .sysctls32),
-   .hostProcess0]
-
-def activeRestricted (V : Nat) : List RevId :=
-  [.appArmor0] ++ (if V < 22 then [.capsBaseline0] else []) ++ [.hostNamespaces0, .hostPorts0, .privileged0, .procMount0,
-   (if V < 31 then .seLinux0 else .seLinux31)] ++ (if V < 19 then [.seccompB0] else []) ++
-   [(if V < 27 then .sysctls0 else if V < 29 then .sysctls27 else if V < 32 then .sysctls29 else .sysctls32),
-   .hostProcess0] ++
-   (if V < 8 then [] else if V < 25 then [.allowPrivEsc8] else [.allowPrivEsc25]) ++
-   (if V < 22 then [] else if V < 25 then [.capsRestricted22] else [.capsRestricted25]) ++
-   [.restrictedVolumes0, .runAsNonRoot0] ++ (if V < 23 then [] else [.runAsUser23]) ++
-   (if V < 19 then [] else if V < 25 then [.seccompR19] else [.seccompR25])
 
 theorem spec_baseline_table : ∀ V, V ≤ 32 → spec shipped .baseline V = activeBaseline V := by decide
 theorem spec_restricted_table : ∀ V, V ≤ 32 → spec shipped .restricted V = activeRestricted V := by decide
